@@ -10,6 +10,8 @@ ASSUME = [
     "targets freely; low bucket indices are reached with a local key crafted from one real peer's hash",
     "expected bucket indices, set bits of local^target and distance orders in the traces are computed by the harness "
     "with its own SHA-256/XOR arithmetic; the TLA+ trace spec compares them with what the real table did",
+    "'connected' is judged by what the caller reported (on_connection_established through either endpoint kind, or "
+    "add/insert as Connected, and no disconnect / other connection type since) as well as by the table's own field",
     "the slot KBucket::entry pushes when it answers Vacant (random id, no address) is modelled in the Impl layer; the "
     "Prop layer counts it for the capacity bound but not as a stored peer for placement (nobody supplied that id)",
     "callers insert into a Vacant entry only the peer the entry was looked up for (as RoutingTable::add_known_peer does)",
@@ -338,6 +340,15 @@ def selftest(ctx):
                    os.path.join(mdir, "KadRoutingMC.tla")], timeout=600, cwd=mdir)
     hit = "StepOK is violated" in out
     log("selftest spec mutant (connected entries replaceable) -> %s" % ("violated" if hit else "NOT violated"))
+    ok &= hit
+    # an inbound connection that is not recorded: the peer stays replaceable although the caller reported it connected
+    old = '[r.bk EXCEPT ![r.i][r.j].conn = "C",'
+    assert old in src
+    open(os.path.join(mdir, "KadRouting.tla"), "w").write(src.replace(old, '[r.bk EXCEPT ![r.i][r.j].conn = IF o.dial = 1 THEN "C" ELSE @,'))
+    rc, out = run(["tlc", "-workers", "4", "-metadir", ctx.metadir(), "-cleanup", "-noGenerateSpecTE", "-config", cfgp,
+                   os.path.join(mdir, "KadRoutingMC.tla")], timeout=600, cwd=mdir)
+    hit = "StepOK is violated" in out
+    log("selftest spec mutant (inbound connection not recorded) -> %s" % ("violated" if hit else "NOT violated"))
     ok &= hit
     log("SELFTEST %s (%d corruptions tried, %d D11 events in the good trace)" % ("ok" if ok and tried == len(muts) else "FAILED", tried, len(hits)))
     return 0 if ok and tried == len(muts) else 2
